@@ -6,6 +6,8 @@ import (
 	"os"
 	"os/exec"
 
+	"github.com/robertkrimen/otto/ast"
+	"github.com/robertkrimen/otto/file"
 	"github.com/robertkrimen/otto/parser"
 	"sort"
 	"strings"
@@ -791,4 +793,142 @@ func runDeep(r *engine.Run) {
 	}
 	r.Bound("depth", fmt.Sprint(deepN))
 	r.Bound("productions", fmt.Sprint(len(deepProductions)))
+}
+
+// filesetTexts: at least one text per error kind (invalid UTF-8, illegal
+// characters, unterminated string / regexp / comment, bad literals, every early
+// error) plus valid programs, for the FileSet dimension.
+func filesetTexts() []string {
+	out := []string{
+		"x = '\xff';", "\xffx", "x = 1 ; \xc3", "// c\xe2\x82\nx", "x = \"a\xed\xa0\x80\" ;", "/* \xfe */ x", "x = /\xff/ ;",
+		"@", "x = # ;", "a \\ b", "x = `", "x = 'abc", "x = \"abc\n\"", "x = /abc", "x = /[/\n", "/* never closed", "x = 1 /* open", "x = 3in ;", "x = 08 ;", "x = 1e ;", "x = 0x ;",
+		"x = '\\x4' ;", "x = \"\\u12\" ;", "\\u00 = 1", "x = /a/gg ;", "x = /(/ ;", "x = /a**/ ;", "x = /^*/ ;",
+		"break ;", "continue ;", "return 1 ;", "L : L : ;", "while ( a ) break M ;", "L : { while ( a ) continue L ; }", "1 = 2 ;", "a + b = c ;", "++ 1 ;", "this ++ ;", "for ( 1 in o ) ;",
+		"try { }", "switch ( a ) { default : ; default : ; }", "var class ;", "var if = 1 ;", "function ( ) { }", "function f ( a , ) { }", "x = { get a ( b ) { } } ;", "x = { + : 1 } ;",
+		"( a ) : b ;", "a &^= b", "throw\na ;", "if ( a ) else b", "for ( ; ) ;", "a ? b ;", "x = ;", ") ;", "x = ( ;", "x = [ 1 , ;", "x = { a : ;", "a . 1", "new ;", "var ;", "do ; while",
+		"x = 1 ;\n\ny = ) ;", "x = 1 ;\r\ny = ) ;", "x = 1 ;\u2028y = ) ;", "\n\n\n  @", "x = 1 ;\n//# sourceMappingURL=data:application/json,AAAA",
+		"", ";", "x = 1 ;", "a . b\u0663", "for ( ; ; ) { }", "switch ( 1 ) { case 1 : }", "try { } finally { }", "x = /a/g . test ( 's' ) ;\n'use strict' ;",
+	}
+	for _, m := range malformed {
+		for _, c := range carriers[:3] {
+			for _, p := range []int{0, len(c) / 2, len(c)} {
+				out = append(out, c[:p]+m+c[p:])
+			}
+		}
+	}
+	for i, s := range c03.CorpusTexts() {
+		out = append(out, s)
+		if i%4 == 0 {
+			out = append(out, s[:len(s)/3], s[:2*len(s)/3], s+" )")
+		}
+	}
+	return out
+}
+
+type fsObservation struct {
+	outcome string   // "accept", "reject", "panic: ..."
+	errors  []string // "line:col message" per error
+	files   []string // file name per error
+	spans   []string // per node, relative to the file's base: "type off0-off1"
+	base    int
+}
+
+func observeInFileSet(fs *file.FileSet, name, src string) (o fsObservation) {
+	defer func() {
+		if p := recover(); p != nil {
+			o.outcome = fmt.Sprint("panic: ", p)
+		}
+	}()
+	prog, err := parser.ParseFile(fs, name, src, 0)
+	o.outcome = "accept"
+	if err != nil {
+		o.outcome = "reject"
+		if l, ok := err.(*parser.ErrorList); ok && l != nil {
+			for _, e := range *l {
+				o.errors = append(o.errors, fmt.Sprintf("%d:%d %s", e.Position.Line, e.Position.Column, e.Message))
+				o.files = append(o.files, e.Position.Filename)
+			}
+		} else {
+			o.outcome = fmt.Sprintf("reject with %T", err)
+		}
+	}
+	if prog == nil || err != nil {
+		return o // spans are required of accepted trees only
+	}
+	o.base = 1
+	if prog.File != nil {
+		o.base = prog.File.Base()
+	}
+	var rec func(n ast.Node)
+	rec = func(n ast.Node) {
+		s, pm := safeSpan(n)
+		if pm != "" {
+			o.spans = append(o.spans, fmt.Sprintf("%T panic", n))
+		} else {
+			o.spans = append(o.spans, fmt.Sprintf("%T %d-%d", n, s.i0-o.base, s.i1-o.base))
+		}
+		for _, c := range children(n) {
+			if c.n != nil {
+				rec(c.n)
+			}
+		}
+	}
+	if len(prog.Body) > 0 {
+		rec(prog)
+	}
+	return o
+}
+
+// runFileSet: the position oracles with the file at a later base of a shared
+// file.FileSet (second and third file, after files of different lengths):
+// ParseFile returns, the error list is the same as for a fresh parse (same
+// messages, same file-relative line:column, the right file name) and every
+// node's span is the base-1 span shifted exactly by the file's base.
+func runFileSet(r *engine.Run) {
+	first := []string{"var first = 1;\nvar second = 2;\n", "", "x\n"}
+	for ti, src := range filesetTexts() {
+		key := fmt.Sprintf("t%d", ti)
+		if !mine(r, key) {
+			continue
+		}
+		r.Begin(key)
+		ref := observeInFileSet(nil, "", src)
+		r.End()
+		for fi, f := range first {
+			fs := &file.FileSet{}
+			if _, err := parser.ParseFile(fs, "first.js", f, 0); err != nil {
+				r.HarnessError("first file does not parse: " + err.Error())
+				return
+			}
+			for pos, name := range []string{"second.js", "third.js"} {
+				k := fmt.Sprintf("%s/%d/%d", key, fi, pos)
+				r.Begin(k)
+				obs := observeInFileSet(fs, name, src)
+				r.End()
+				r.Eval(ref.outcome != "accept" || len(ref.spans) > 0)
+				r.Tree(1, 1)
+				r.Outcome(obs.outcome + strings.Join(obs.errors, "|"))
+				if r.WantSample() {
+					r.Sample(fmt.Sprintf("%q as %s (base %d) => %s %v", clip(src, 80), name, obs.base, obs.outcome, obs.errors))
+				}
+				exp := fmt.Sprintf("%s errors=%q spans=%q", ref.outcome, ref.errors, ref.spans)
+				got := fmt.Sprintf("%s errors=%q spans=%q", obs.outcome, obs.errors, obs.spans)
+				if exp != got {
+					r.Mismatch(engine.Mismatch{Key: k + "#fileset", Input: src, Expected: clip(exp, 600), Observed: clip(got, 600), Note: fmt.Sprintf("file %s at base %d", name, obs.base)})
+					continue
+				}
+				for _, fn := range obs.files {
+					if fn != name {
+						r.Mismatch(engine.Mismatch{Key: k + "#filename", Input: src, Expected: name, Observed: fn})
+						break
+					}
+				}
+				if obs.outcome == "accept" && obs.base <= 1 {
+					r.Mismatch(engine.Mismatch{Key: k + "#base", Input: src, Expected: "a base beyond the first file", Observed: fmt.Sprint(obs.base)})
+				}
+			}
+		}
+	}
+	r.Bound("texts", fmt.Sprint(len(filesetTexts())))
+	r.Bound("files", "2nd and 3rd file after 3 first files")
 }
